@@ -7,11 +7,12 @@ THEOREMS = ["C20_flatten", "C20_flatten_once", "C20_report_complete", "C20_repor
 CLI = os.path.join(vlib.BIN, "scipipe_cli")
 
 
-def ts(n):
-    """n-th instant as RFC 3339; 0 is Go's zero time (records of source files)"""
-    if n == 0:
+def ts(ns):
+    """an instant given in nanoseconds after 2026-03-01T10:00:00Z as RFC 3339; 0 is Go's zero time (records of source files)"""
+    if ns == 0:
         return "0001-01-01T00:00:00Z"
-    return "2026-03-%02dT10:%02d:%02d.%09dZ" % (1 + n // 86400, (n // 60) % 60, n % 60, (n * 7919) % 1000000000)
+    sec, frac = divmod(ns, 10**9)
+    return "2026-03-01T10:%02d:%02d.%09dZ" % ((sec // 60) % 60, sec % 60, frac)
 
 
 def gen_tree(rng, depth, pool, ids):
@@ -23,14 +24,15 @@ def gen_tree(rng, depth, pool, ids):
         i = i[:-1] + rng.choice("xyz")
     ids.add(i)
     source = depth == 0 or rng.random() < 0.2
-    start = 0 if source else rng.choice([rng.randint(1, 50), rng.randint(1, 5)])     # small ranges force ties
+    # exact ties (small ranges) and near ties: several records inside one millisecond, nanoseconds apart
+    start = 0 if source else rng.choice([rng.randint(1, 50), rng.randint(1, 5)]) * 10**9 + rng.choice([0, 0, 1, 500, 999999, 1000000, 1000001]) + rng.choice([0, 7 * 10**6])
     ups = {}
     if not source:
         for k in range(rng.randint(1, 3)):
             ups["in%d_%s.txt" % (k, i[:4])] = gen_tree(rng, depth - 1, pool, ids)
     rec = {"ID": i, "ProcessName": "" if source else rng.choice(["align", "merge_x", "sort", "p%d" % rng.randint(0, 9)]),
            "Command": "" if source else "echo %s > out_%s" % (i[:5], i[:5]), "Params": {} if source else {"k": "v%d" % rng.randint(0, 3)},
-           "Tags": {} if rng.random() < 0.7 else {"t": "x"}, "StartTime": ts(start), "FinishTime": ts(start + (0 if source else rng.randint(0, 3))),
+           "Tags": {} if rng.random() < 0.7 else {"t": "x"}, "StartTime": ts(start), "FinishTime": ts(start + (0 if source else rng.randint(0, 3) * 10**9)),
            "ExecTimeNS": -1 if source else rng.randint(0, 10**9), "OutFiles": {} if source else {"o": "out_%s" % i[:5]}, "Upstream": ups, "_start": start}
     pool.append(rec)
     return rec
